@@ -1,7 +1,8 @@
-\* 4-bit bytes (base 16): shuffle of 0..4 elements, sample(n <= 4, k <= n); every tape of up to 3 bytes (4096 per case)
+\* 4-bit bytes (base 16): shuffle of 0..4 elements, sample(n <= 4, k <= n); every tape of up to 3 bytes explored and counted (4096 per case)
 CONSTANTS BW = 4
 MaxN = 4
 MaxLen = 3
+FibreLen = 3
 INIT Init
 NEXT Next
 CHECK_DEADLOCK FALSE
